@@ -1274,6 +1274,7 @@ func main() {
 	r.Assume("set-but-empty variable: both 'left unchanged' and 'replaced by the empty string' accepted (the statement only defines unset)")
 	r.Assume("'validated = used' is checked in the direction: a value that validation refuses literally must be refused whenever another route (expansion, flag, env) would make it the used value; an invalid file value that is overridden by a valid flag/env value and still rejected is not flagged")
 	r.Assume("NewConfig is called without a version string (as the repository's own tests do), so deprecated settings load with a warning; zero-valued file entries for settings with non-zero defaults are outside the alphabet (except explicit false for booleans)")
+	locationsPart(r)
 	r.Finish()
 }
 
